@@ -35,7 +35,7 @@ struct Counters {
 }
 
 /// all oracles for one valid document of version v1 against every target version
-fn check_doc(ctx: &Ctx, cnt: &Counters, what: &str, tree: &Node, v1: AutosarVersion, targets: &[AutosarVersion], two_file: bool) {
+fn check_doc(ctx: &Ctx, cnt: &Counters, what: &str, tree: &Node, v1: AutosarVersion, targets: &[AutosarVersion], two_file: bool, depth_of_parent: usize) {
     let o = PrintOpts { layout: Layout::Compact, ..PrintOpts::default() };
     let text1 = print_document(tree, v1, &o);
     let l1: Loaded = match load_classified(text1.as_bytes(), true) {
@@ -79,6 +79,52 @@ fn check_doc(ctx: &Ctx, cnt: &Counters, what: &str, tree: &Node, v1: AutosarVers
                 ctx.count("two_file_merge_refused", 1);
             }
             Err(p) => ctx.violation(format!("panic|load-second-file|{}", last_panic_loc()), json!({"kind": "two-file", "file_a": text1, "msg": p})),
+        }
+    }
+    if two_file && depth_of_parent >= 2 {
+        // second two-file variant: the other file is a "twin" that contains the same chain of elements but not the
+        // deepest child, so that the child is restricted to the first file below a parent that may not be splittable.
+        // The twin's own compatibility must not depend on what only the first file contains.
+        let mut twin = tree.clone();
+        fn drop_deepest(n: &mut Node, depth: usize) {
+            if depth == 0 {
+                if let Some(pos) = n.items.iter().rposition(|i| matches!(i, Item::Node(_))) {
+                    n.items.remove(pos);
+                }
+                return;
+            }
+            if let Some(Item::Node(c)) = n.items.iter_mut().rev().find(|i| matches!(i, Item::Node(_))) {
+                drop_deepest(c, depth - 1);
+            }
+        }
+        drop_deepest(&mut twin, depth_of_parent);
+        let text_twin = print_document(&twin, v1, &o);
+        let m = AutosarModel::new();
+        let loaded = guarded(|| {
+            m.load_buffer(text1.as_bytes(), "x.arxml", true)?;
+            m.load_buffer(text_twin.as_bytes(), "twin.arxml", true).map(|(f, _)| f)
+        });
+        match loaded {
+            Ok(Ok(ft)) => {
+                for v2 in targets {
+                    cnt.checks.fetch_add(1, Ordering::Relaxed);
+                    let twin_v2 = print_document(&twin, *v2, &o);
+                    let reference_ok = matches!(load_classified(twin_v2.as_bytes(), true), Ok(Ok(_)));
+                    match guarded(|| ft.check_version_compatibility(*v2)) {
+                        Ok((errs, mask)) => {
+                            if errs.is_empty() != reference_ok || v2.compatible(mask) != reference_ok {
+                                ctx.violation(
+                                    format!("two-files|twin-file-judged-by-content-of-the-other-file|{}", compat_class(&errs)),
+                                    json!({"kind": "two-file", "file_a": text1, "file_b": text_twin, "target": format!("{v2:?}"), "reported_for_b": compat_kinds(&errs), "mask_for_b": mask, "b_alone_loads_as_target": reference_ok}),
+                                );
+                            }
+                        }
+                        Err(p) => ctx.violation(format!("panic|check_version_compatibility|{}", last_panic_loc()), json!({"kind": "two-file", "file_a": text1, "file_b": text_twin, "msg": p})),
+                    }
+                }
+            }
+            Ok(Err(_)) => ctx.count("twin_merge_refused", 1),
+            Err(p) => ctx.violation(format!("panic|load-twin-file|{}", last_panic_loc()), json!({"kind": "two-file", "file_a": text1, "msg": p})),
         }
     }
     let before = snapshot_model(&l1.model);
@@ -191,6 +237,7 @@ pub fn run(tier: Tier) -> i32 {
     let cnt = Counters { docs: AtomicU64::new(0), checks: AtomicU64::new(0), compatible: AtomicU64::new(0), set_version_ok: AtomicU64::new(0) };
     let sources: Vec<AutosarVersion> = tier.pick(vec![VERSIONS[0], VERSIONS[8], VERSIONS[17], VERSIONS[20]], VERSIONS.to_vec());
     let targets: Vec<AutosarVersion> = VERSIONS.to_vec();
+    let two_file_every: usize = tier.pick(4, 1);
     let mut states = 0u64;
     let mut edges = 0u64;
     for v1 in &sources {
@@ -214,7 +261,7 @@ pub fn run(tier: Tier) -> i32 {
                 }
                 let Some(child) = full_child(&s, *v1) else { continue };
                 let Some(tree) = doc_with(path, vec![child.clone()], *v1) else { continue };
-                check_doc(&ctx, &cnt, "edge", &tree, *v1, &targets, pi % 16 == 0);
+                check_doc(&ctx, &cnt, "edge", &tree, *v1, &targets, pi % two_file_every == 0, path.len() - 1);
                 // one document per enum item with a partial version mask (attribute and element position)
                 let all: u32 = VERSIONS.iter().fold(0, |a, v| a | *v as u32);
                 for (an, spec, _) in s.etype.attribute_spec_iter() {
@@ -228,7 +275,7 @@ pub fn run(tier: Tier) -> i32 {
                                 c.attrs.retain(|(a, _)| a != an.to_str());
                                 c.attrs.push((an.to_str().into(), Val::Enum(item.to_str().into())));
                                 if let Some(t) = doc_with(path, vec![c], *v1) {
-                                    check_doc(&ctx, &cnt, "enum-item-in-attribute", &t, *v1, &targets, false);
+                                    check_doc(&ctx, &cnt, "enum-item-in-attribute", &t, *v1, &targets, false, path.len() - 1);
                                 }
                             }
                         }
@@ -242,7 +289,7 @@ pub fn run(tier: Tier) -> i32 {
                                 c.items.retain(|i| matches!(i, Item::Node(_)));
                                 c.items.push(Item::Text(Val::Enum(item.to_str().into())));
                                 if let Some(t) = doc_with(path, vec![c], *v1) {
-                                    check_doc(&ctx, &cnt, "enum-item-in-element", &t, *v1, &targets, false);
+                                    check_doc(&ctx, &cnt, "enum-item-in-element", &t, *v1, &targets, false, path.len() - 1);
                                 }
                             }
                         }
